@@ -48,7 +48,7 @@ def keep (o : Opts) (f : Facts) (hd : Hd) : Bool :=
 /-- map_attributes, base.py:233-246 -/
 def mapAttrs (o : Opts) (m : Mapper) (hd : Hd) : List (String × J) :=
   match o.attrPrefix with
-  | some p => hd.attrs.map fun kv => (p ++ m.mp kv.1, kv.2)
+  | some p => hd.attrs.map fun kv => (p ++ m.mpA kv.1, kv.2)
   | none => []
 
 def orNone (d : List (String × J)) : J := if d.isEmpty then .null else .dict d
